@@ -25,7 +25,7 @@ var Check = &ev.Check{
 	Rule: "(a) every reference cycle of length 1..3 (thorough: plus length 4 over the 8 core kinds) over 21 node kinds (typedef direct/list/set/map-key/map-value, struct optional/required/list field, union, exception, " +
 		"const i32/i64/list/map/struct-literal, struct field default -> const, default = {} / [{}] literal of a struct type, default = constant of the own struct type, const of a struct type, service extends; cycles of length<=2 also reached through 9 kinds of entry definition in a separate root file (constant, typedef, typedef chains of 2 and 3, struct default, service, constant / default / map key of an alias)) including mixed and ill-kinded ones, each in a single file and in one file per node (cyclic / self includes); " +
 		"(b) every token sequence of length<=4 (quick) / <=5 (thorough) over a reduced 24-token alphabet and <=3 / <=4 over the full 61-token alphabet, every byte string of length<=2 over 256 values; " +
-		"(c) every single-token deletion, duplication and substitution (10 substitutes) of each corpus file (plugin/api.thrift and gen/internal/tests/thrift/*.thrift; quick: files <= 400 tokens, thorough: all files, budget-capped). " +
+		"(c) every single-token deletion, duplication, substitution (10 substitutes) and insertion of 10 comment / docstring shapes before every definition keyword of each corpus file (plugin/api.thrift and gen/internal/tests/thrift/*.thrift; quick: files <= 400 tokens, thorough: all files, budget-capped). " +
 		"Each input runs compile.Compile and, if it compiled, gen.Generate in a memory-limited worker process; a panic, fatal error (stack overflow) or hang is attributed to the input. Cases are distinct inputs by construction; non-trivial = every case.",
 	Run: run,
 	Budget: func(t string) time.Duration {
@@ -423,6 +423,13 @@ func tokenStrings(alpha []string, maxLen int, yield func([]string)) {
 
 var tokenRE = regexp.MustCompile(`(?s)/\*.*?\*/|//[^\n]*|#[^\n]*|"(?:[^"\\\n]|\\.)*"|'(?:[^'\\\n]|\\.)*'|[A-Za-z_][A-Za-z0-9_.]*|[-+]?[0-9][0-9A-Za-z.+-]*|\s+|.`)
 
+// inserts: comment and docstring shapes placed before every token (empty and blank
+// docstrings, the shortest comment forms, unterminated ones)
+var inserts = []string{"/**\n */", "/**\n\n*/", "/** */", "/***/", "/**/", "/**\n *\n */", "//\n", "#\n", "/**", "/*"}
+
+// docAnchors: the tokens a docstring attaches to.
+var docAnchors = map[string]bool{"struct": true, "union": true, "exception": true, "enum": true, "service": true, "const": true, "typedef": true, "include": true, "namespace": true, "oneway": true, "void": true}
+
 var substitutes = []string{"{", "}", "(", ",", "=", "<", "1", "a", "struct", "\"s\""}
 
 func corpus() map[string]string {
@@ -558,6 +565,17 @@ func run(w *ev.W) {
 				t = append(t, " ", toks[i])
 				return append(t, toks[i+1:]...)
 			})
+			for _, s := range inserts {
+				s := s
+				if !docAnchors[toks[i]] {
+					continue // (comments elsewhere leave the program valid: each costs a full generation and adds nothing)
+				}
+				mutate("insert", func() []string {
+					t := append([]string{}, toks[:i]...)
+					t = append(t, s, " ")
+					return append(t, toks[i:]...)
+				})
+			}
 			for _, s := range substitutes {
 				s := s
 				if toks[i] == s {
